@@ -51,8 +51,13 @@ struct C05 : Scenario {
         if (r.chance(0.1)) c.steps_per_rev = (double)c.steps * derive(c).fs / derive(c).f_rev;
         Derived d0 = derive(c);
         double Td = many ? r.uniform(3, 4) : r.uniform(7, 11);                 // damping time in synchrotron periods
-        c.tdamp = Td / d0.fs;
         c.rotations = many ? std::round(r.uniform(24, 30)) : std::round(r.uniform(50, 70));
+        {   // the explicit Fokker-Planck scheme is stable for e1 = 2/(Td steps) < cell^2/2 only (fine grids with few steps per period
+            // need a longer damping time, and a proportionally longer run); found by the thorough tier: grid 135 at 50 steps per period
+            double delta = c.pssize / (c.grid - 1), Tdmin = 2.0 / (0.4 * delta * delta * d0.steps);
+            if (Td < Tdmin) { double f = 1.05 * Tdmin / Td; Td *= f; c.rotations = std::round(c.rotations * f); }
+        }
+        c.tdamp = Td / d0.fs;
         c.outstep = c.steps; c.saveps = 0;
         c.zoom = r.chance(0.5) ? 1 : std::round(r.uniform(0.8, 1.2) * 100) / 100;
         // "after relaxation from any start": a fifth of the runs start far from equilibrium, so small that the start has
